@@ -135,6 +135,45 @@ func Exchange(conn net.Conn, br *bufio.Reader, raw string) *Resp {
 	return r
 }
 
+// DoPipelined writes all requests at once (HTTP/1.1 pipelining: the client does not wait for an
+// answer before sending the next request) and then reads one response per request, in order.
+func (t *Tunnel) DoPipelined(raws []string) []*Resp {
+	t.conn.SetDeadline(time.Now().Add(ioDeadline))
+	go func() { io.WriteString(t.tls, strings.Join(raws, "")) }()
+	out := make([]*Resp, 0, len(raws))
+	for _, raw := range raws {
+		method := "GET"
+		if i := strings.IndexByte(raw, ' '); i > 0 {
+			method = raw[:i]
+		}
+		t.conn.SetDeadline(time.Now().Add(ioDeadline))
+		resp, err := http.ReadResponse(t.br, &http.Request{Method: method})
+		r := &Resp{Header: http.Header{}}
+		if err != nil {
+			r.Err = "no well-formed response: " + err.Error()
+			out = append(out, r)
+			// the stream is out of step from here on: the remaining requests get no answer either
+			for len(out) < len(raws) {
+				out = append(out, &Resp{Header: http.Header{}, Err: "no response (an earlier exchange on the tunnel got none)"})
+			}
+			return out
+		}
+		r.Status, r.Proto, r.Header = resp.StatusCode, resp.Proto, resp.Header
+		if len(resp.TransferEncoding) > 0 {
+			r.Header = r.Header.Clone()
+			r.Header.Set("X-Verif-Transfer-Encoding", strings.Join(resp.TransferEncoding, ","))
+		}
+		body, berr := io.ReadAll(resp.Body)
+		resp.Body.Close()
+		r.Body = string(body)
+		if berr != nil {
+			r.Err = "body: " + berr.Error()
+		}
+		out = append(out, r)
+	}
+	return out
+}
+
 // ---- mode (ii): an in-memory ResponseWriter so that the exchange stays on the calling thread ----
 
 // Recorder mimics the parts of net/http's response writer that the properties observe:
